@@ -213,6 +213,10 @@ def c12_3(ck, prog):
             r.ok(key)
     if n < 8:
         raise AnalysisBroken('only %d exported header setters found in dbus-message.c' % n)
+    append_check_tests_locked(prog, r)
+
+
+def append_check_tests_locked(prog, r):
     ac = prog.fn('_dbus_message_iter_append_check', MSG)
     okc = [True]
 
